@@ -17,3 +17,8 @@ package signdeb
 //@   before call (*binpatch.PatchSet).Add(_, off, sz, blob): assert @otherwise_the_signature_is_appended !matched ==> off == counter.N && sz == 0
 //@   loop 0 sig "for" invariant (matched ==> patchOffset == mpos - 60 && patchLength == 60 + msize + msize % 2) && (!matched ==> patchOffset == 0 && patchLength == 0) && \
 //@        68 <= mpos && mpos <= 2305843009213693952 && 0 <= msize && msize <= 9999999999
+
+//@ func checkSig
+//@   property C11
+//@   nopanic
+//@   requires body != nil
